@@ -121,6 +121,9 @@ def gaussian_smooth(
         sigma = float(sigma)
     except ValueError:
         raise ValueError(f"sigma must be a number, got {sigma!r}")
+    if img.dtype != np.bool_:
+        # a binary image given as 0/1 integers or floats (e.g. a mask read from a file)
+        img = img > 0
     if sigma == 0:
         return img.astype(np.float32)
     if sigma < 0:
